@@ -154,80 +154,114 @@ _MAPS = {}   # decl name -> (elem_in, elem_out, evaluator)
 
 
 def seq_map(it, xs, e, g, fr):
-    """[elt for target in xs] over a symbolic-length list xs.
+    """[elt for target in xs] where xs is a symbolic-length list or range(n) with symbolic n.
 
-    The result is the application of a map symbol named after the (alpha-normalised) element expression;
-    equal comprehensions over equal lists are therefore equal terms.  Defining axioms (added per occurrence):
-    len(map(xs)) = len(xs) and, quantified, map(xs)[i] = elt(xs[i])."""
+    The result is the application of a comprehension symbol named after the (alpha-normalised) element
+    expression; its arguments are the source (list term or length) and the symbolic variables the element
+    expression captures.  Equal comprehensions over equal arguments are therefore equal terms.
+    Defining axioms (added per occurrence): len(comp(..)) = n and, quantified, comp(..)[i] = elt(i)."""
     import hashlib
     from . import engine
+    from .models import is_int, is_bytes
     if not isinstance(g.target, ast.Name):
-        raise Unsupported("comprehension target over a symbolic list must be a name")
+        raise Unsupported("comprehension target over a symbolic iterable must be a name")
     tname = g.target.id
-    # free variables of the element expression other than the target must be concrete (captured in the key)
+    if isinstance(xs, VSeq):
+        src_kind, src_z, src_meta = "seq", xs.z, (xs.elem, xs.elen)
+    elif isinstance(xs, engine.IterView) and xs.kind == "range":
+        start, stop, step = xs.parts
+        if start != 0 or step != 1:
+            raise Unsupported("comprehension over symbolic range with start/step")
+        src_kind, src_z, src_meta = "range", zi(stop), None
+    else:
+        raise Unsupported(f"comprehension over symbolic {type(xs).__name__}")
     free = sorted({n.id for n in ast.walk(e.elt) if isinstance(n, ast.Name)} - {tname})
-    cap = []
+    cap_c, cap_s = [], []
     for n in free:
         if n in fr.locals:
             v = fr.locals[n]
             if sym.is_sym(v):
-                raise Unsupported(f"comprehension over a symbolic list captures symbolic variable {n!r}")
-            cap.append((n, repr(v)))
+                if isinstance(v, VInt):
+                    cap_s.append((n, "int", v.z, None))
+                elif isinstance(v, VBytes):
+                    cap_s.append((n, "bytes", v.z, None))
+                elif isinstance(v, VSeq):
+                    cap_s.append((n, "list:" + v.elem, v.z, v.elen))
+                else:
+                    raise Unsupported(f"comprehension captures symbolic {type(v).__name__} {n!r}")
+            else:
+                cap_c.append((n, repr(v) if not callable(v) else getattr(v, "__qualname__", repr(v))))
     norm = ast.dump(e.elt).replace(f"id='{tname}'", "id='_x'")
-    key = hashlib.sha256((norm + repr(cap) + xs.elem + str(xs.elen)).encode()).hexdigest()[:10]
-    # evaluate the element expression once on a probe element to learn the element type
-    probe = it.seq_index(xs, VInt(z3.Int("probe!" + key)))
-    sub = engine.Frame(dict(fr.locals), fr.globals, fr.fname)
-    sub.locals[tname] = probe
+    key = hashlib.sha256((norm + repr(cap_c) + src_kind + repr(src_meta) + repr([(n, t, l) for n, t, _, l in cap_s])).encode()).hexdigest()[:10]
+
+    def wrap_cap(zs):
+        env = {}
+        for (n, t, _, l), z in zip(cap_s, zs):
+            if t == "int":
+                env[n] = mk_int(z)
+            elif t == "bytes":
+                env[n] = vbytes_from_term(z)
+            else:
+                env[n] = VSeq(z, t.split(":")[1], l)
+        return env
+
+    def elt_val(itp, srcz, capz, i):
+        sub2 = engine.Frame(dict(fr.locals), fr.globals, fr.fname)
+        sub2.locals.update(wrap_cap(capz))
+        if src_kind == "seq":
+            sub2.locals[tname] = itp.seq_index(VSeq(srcz, src_meta[0], src_meta[1]), VInt(i) if not isinstance(i, int) else i)
+        else:
+            sub2.locals[tname] = mk_int(i) if not isinstance(i, int) else i
+        return itp.eval(e.elt, sub2)
+
+    # probe the element type
     ctx = it.ctx
     npc = len(ctx.pc)
     ctx.solver.push()
     try:
-        val = it.eval(e.elt, sub)
+        pi = z3.Int("probe!" + key)
+        ctx.assume(z3.And(pi >= 0, pi < (z3.Length(src_z) if src_kind == "seq" else src_z)))
+        val = elt_val(it, src_z, [c[2] for c in cap_s], pi)
     finally:
         del ctx.pc[npc:]
         ctx.solver.pop()
-    from .models import is_int, is_bytes
     if is_bytes(val):
-        out_elem, out_sort = "bytes", LBytesS
-        elen = to_vbytes(val).klen()
+        out_elem, out_sort, elen = "bytes", LBytesS, to_vbytes(val).klen()
     elif is_int(val):
         out_elem, out_sort, elen = "int", BytesS, None
     else:
         raise Unsupported("comprehension element type")
-    name = f"map_{key}"
-    f = sym.uf(name, xs.z.sort(), out_sort)
+    name = f"comp_{key}"
+    sorts = [src_z.sort()] + [c[2].sort() for c in cap_s]
+    f = sym.uf(name, *sorts, out_sort)
 
-    def elt_at(itp, xz, i):
-        """element expression evaluated on xs[i] (as a z3 term)"""
-        x = itp.seq_index(VSeq(xz, xs.elem, xs.elen), VInt(i))
-        sub2 = engine.Frame(dict(fr.locals), fr.globals, fr.fname)
-        sub2.locals[tname] = x
-        v = itp.eval(e.elt, sub2)
+    def elt_at(itp, args, i):
+        v = elt_val(itp, args[0], list(args[1:]), i)
         return to_vbytes(v).z if out_elem == "bytes" else zi(v)
 
-    _MAPS[name] = (elt_at, it.repo)
-    return VSeq(f(xs.z), out_elem, elen)
+    _MAPS[name] = (elt_at, it.repo, src_kind)
+    return VSeq(f(src_z, *[c[2] for c in cap_s]), out_elem, elen)
 
 
 def map_rule(t):
-    """len(map(xs)) == len(xs);  forall i in range: map(xs)[i] == elt(xs[i])."""
+    """len(comp(src, ...)) == n;  forall i in range(n): comp(src, ...)[i] == elt(i)."""
     if t.decl().kind() != z3.Z3_OP_UNINTERPRETED:
         return []
     ent = _MAPS.get(t.decl().name())
     if ent is None:
         return []
     from . import engine
-    elt_at, repo = ent
-    xz = t.arg(0)
-    out = [z3.Length(t) == z3.Length(xz)]
+    elt_at, repo, src_kind = ent
+    args = t.children()
+    n = z3.Length(args[0]) if src_kind == "seq" else z3.If(args[0] >= 0, args[0], 0)
+    out = [z3.Length(t) == n]
     i = z3.Int("i!" + t.decl().name())
 
     def run(ctx):
         itp = engine.Interp(ctx, repo)
-        return elt_at(itp, xz, i)
+        return elt_at(itp, args, i)
     try:
-        paths = engine.explore(run, base_pc=[z3.And(i >= 0, i < z3.Length(xz))])
+        paths = engine.explore(run, base_pc=[z3.And(i >= 0, i < n)])
     except Unsupported:
         return out
     for p in paths:
